@@ -254,11 +254,11 @@ void test_fft(uint64_t cs, int nh, int hk, int nx, int xk, int nf, bool emit, in
     FftFilter f(h);
     FirFilter<T> fd(h);
     const int bs = f.block_size();
-    const int L = 1 << ceil_log2(2 * nh);
+    const int L = 1 << ceil_log2(bs + nh - 1);   // transform length of one block
     std::vector<T> y;
     std::string outs;
     int p = 0;
-    bool lenok = (bs == L - nh + 1) && bs > nh;
+    bool lenok = bs >= 1;   // the block size itself is the implementation's choice (CORR compares it with the model's)
     for (int l : lens) {
         const base_array<T> yi = run_fft(f, sub(x, p, l));
         p += l;
@@ -429,12 +429,12 @@ int main(int argc, char** argv) {
     else {
         const int q[] = {2, 3, 4, 5, 7, 8, 9, 16, 17, 31, 32, 33, 64, 100, 129, 255, 256, 257, 511, 512, 513, 1000, 1023, 1024};
         for (int v : q) nhs.push_back(v);
-        for (int j = 0; j < 8; ++j) nhs.push_back(rng.range(2, 1024));
+        for (int j = 0; j < 24; ++j) nhs.push_back(rng.range(2, 1024));
     }
     int cnt = 0;
     for (int nh : nhs) {
         const int bs = (1 << ceil_log2(2 * nh)) - nh + 1;
-        const int reps = TH ? 2 : 3;
+        const int reps = TH ? 2 : 4;
         for (int rep = 0; rep < reps; ++rep, ++cnt) {
             for (int cplx = 0; cplx < 2; ++cplx) {
                 const int hk = (cnt + cplx + int(a.seed)) % NHK;
@@ -444,7 +444,7 @@ int main(int argc, char** argv) {
                 const int nf = (cnt % 3 == 0) ? 1 : rng.range(2, 5);
                 // correspondence with the Lean model: a subset with bounded model work
                 const bool small = (long long)nh * nx <= (TH ? 1500000 : 400000);
-                const bool emit = small && (TH ? (cnt % 8 == int(a.seed % 8)) || nh <= 12 : (nh <= 64 || cnt % 3 == 0));
+                const bool emit = small && (TH ? (cnt % 12 == int(a.seed % 12)) || nh <= 12 : (nh <= 64 || cnt % 3 == 0));
                 const uint64_t cs = rng.next();
                 if (cplx) { test_fir<cmplx_t>(cs, nh, hk, nx, xk, nf, emit, 1); test_fft<cmplx_t>(cs + 1, nh, hk, nx, xk, nf, emit, 1); }
                 else { test_fir<real_t>(cs, nh, hk, nx, xk, nf, emit, 1); test_fft<real_t>(cs + 1, nh, hk, nx, xk, nf, emit, 1); }
@@ -460,7 +460,7 @@ int main(int argc, char** argv) {
             const int nx = (j % 4 == 0) ? 100000 : rng.range(20000, 100000);
             const int hk = (j + int(a.seed)) % NHK, xk = (j / 2) % NXK;
             const int nf = (j % 2) ? rng.range(2, 6) : 1;
-            const bool emit = nh <= 33 && (TH ? j < 8 : j < 3);
+            const bool emit = nh <= 33 && (TH ? j < 4 : j < 2);
             const uint64_t cs = rng.next();
             if (j % 2) { test_fir<cmplx_t>(cs, nh, hk, nx, xk, nf, emit, 97); test_fft<cmplx_t>(cs + 1, nh, hk, nx, xk, nf, emit, 97); }
             else { test_fir<real_t>(cs, nh, hk, nx, xk, nf, emit, 97); test_fft<real_t>(cs + 1, nh, hk, nx, xk, nf, emit, 97); }
@@ -504,7 +504,7 @@ int main(int argc, char** argv) {
                 if (TH && rep == 5 && n <= 128) nx = 100000;
                 const int xk = c % (NXK - 1);
                 const int nf = (c % 2) ? rng.range(2, 5) : 1;
-                const bool emit = (long long)nx <= 5000;
+                const bool emit = (long long)nx <= 3000;
                 if (c % 2) test_ma<cmplx_t>(rng.next(), n, nx, xk, nf, emit, rep == 2);
                 else test_ma<real_t>(rng.next(), n, nx, xk, nf, emit, rep == 2);
                 if (rep == 0) {   // the other type too at the boundary length
